@@ -219,6 +219,35 @@ theorem field_named_like_inner_class :
   decide +kernel
 
 
+/-! ## wrapper fields (round c07f)
+
+`CreateWrapperFields` replaces an element whose class holds exactly one element by that inner
+element: the field takes the inner element's NAME, which a sibling may already have. -/
+
+/-- **after `CreateWrapperFields` the fields of the class have pairwise different slugs whenever
+anything was wrapped** — for every class, every set of wrapped attrs and every kind of source class
+(inner or root-level: the model has no such distinction because the code must not make one). -/
+theorem wrapper_fields_slugs_distinct (cands : List (Attr × Option Attr))
+    (h : anyWrapped cands = true) :
+    ((createWrapperFields true cands).map Attr.slug).Nodup := by
+  unfold createWrapperFields
+  simp only [h, Bool.and_self, if_true]
+  exact rename_nodup _
+
+/-- nothing wrapped, or option off: the attrs are untouched -/
+theorem wrapper_fields_noop (enabled : Bool) (cands : List (Attr × Option Attr))
+    (h : enabled = false ∨ anyWrapped cands = false) :
+    createWrapperFields enabled cands = cands.map (·.1) := by
+  unfold createWrapperFields
+  rcases h with h | h <;> simp [h]
+
+/-- the seeded shape: `<items type=ItemsType>(item+)` next to `<item>`: the wrapped field `item`
+and the sibling `item` are told apart -/
+example : (createWrapperFields true
+      [(⟨Tables.tagElement, "items".toList, none⟩, some ⟨Tables.tagElement, "item".toList, none⟩),
+       (⟨Tables.tagElement, "item".toList, none⟩, none)]).map (·.name) =
+    ["item_Element".toList, "item".toList] := by decide +kernel
+
 /-! ## keywords
 
 "Keyword" = hard keyword: `keyword.kwlist` of the interpreter that runs xsdata (extracted into
